@@ -1012,3 +1012,103 @@ func ruleC15PolicySelection(c *Ctx) {
 		}
 	}
 }
+
+// ruleC15LookupUseAtomic: an item found in byKey is used in the critical section it was found in. If mux is released
+// between the lookup and the use, a concurrent Delete/eviction can unlink the item in between and the policy then
+// operates on a dead element (nil parent, ghost list entries, callbacks for deleted keys).
+func ruleC15LookupUseAtomic(c *Ctx) {
+	u := c.U1
+	c.rule("C15.lookup-use-atomic", "in every method of cache[K,V] no path from a byKey lookup to a use of the item it returned (a field access, or handing it to the policy / evictItem) passes an Unlock/RUnlock of mux", 3)
+	d := newLockDomain(u, pkgCache, "cache", "mux")
+	n := 0
+	for _, f := range d.funcs {
+		if f.Blocks == nil {
+			continue
+		}
+		rp := recvPathOf(f)
+		allInstrs(f, func(i ssa.Instruction) {
+			lk, ok := i.(*ssa.Lookup)
+			if !ok || !strings.HasSuffix(accessPath(lk.X), ".byKey") {
+				return
+			}
+			var item ssa.Value = lk
+			if lk.CommaOk {
+				item = nil
+				for _, r := range *lk.Referrers() {
+					if ex, isEx := r.(*ssa.Extract); isEx && ex.Index == 0 {
+						item = ex
+					}
+				}
+			}
+			if item == nil || item.Referrers() == nil {
+				return
+			}
+			for _, use := range *item.Referrers() {
+				switch use.(type) {
+				case *ssa.FieldAddr, *ssa.Call, *ssa.Store:
+				default:
+					continue
+				}
+				n++
+				var culprit ssa.Instruction
+				found, _ := pathSearch(lk, func(j ssa.Instruction) pathAction {
+					if j == use {
+						if culprit != nil {
+							return pathFound
+						}
+						return pathStop
+					}
+					return pathContinue
+				}, nil)
+				_ = found
+				// simple formulation: search for an unlock strictly between the lookup and the use on some path
+				bad, _ := pathSearch(lk, func(j ssa.Instruction) pathAction {
+					if j == use {
+						return pathStop
+					}
+					if kind, isOp := d.lockOpKind(j, rp); isOp && (kind == "Unlock" || kind == "RUnlock") {
+						if _, isDefer := j.(*ssa.Defer); !isDefer && reaches(j, use) {
+							culprit = j
+							return pathFound
+						}
+					}
+					return pathContinue
+				}, nil)
+				construct := trimPkgDirs(shortName(f)) + "/byKey-item-use"
+				if bad {
+					c.bad(construct, u.ipos(use), "mux is released ("+u.ipos(culprit)+") between looking the item up in byKey and using it: a concurrent Delete or eviction can unlink the item in between, after which the policy is handed a dead item (nil parent → panic, or a ghost list element that is later evicted and notified for a key the cache no longer holds)")
+				} else {
+					c.ok(construct, u.ipos(use), "same critical section as the lookup")
+				}
+			}
+		})
+	}
+	if n < 3 {
+		c.bad("cache/lookups", "", fmt.Sprintf("expected at least 3 uses of looked-up items, found %d", n))
+	}
+}
+
+// ruleC15LFUBucketImmutable: a frequency bucket's frequency is fixed when the bucket is created.
+func ruleC15LFUBucketImmutable(c *Ctx) {
+	u := c.U1
+	c.rule("C15.lfu-bucket-immutable", "frequencyParent.frequency is assigned only in the composite literal that creates the bucket: the frequency list stays strictly increasing because buckets are only ever inserted directly after the bucket they were derived from", 1)
+	n := 0
+	for _, f := range policyFuncs(u) {
+		allInstrs(f, func(i ssa.Instruction) {
+			st, ok := i.(*ssa.Store)
+			if !ok {
+				return
+			}
+			fa, isF := st.Addr.(*ssa.FieldAddr)
+			if !isF || fieldName(fa.X.Type(), fa.Field) != "frequency" {
+				return
+			}
+			n++
+			a, isA := fa.X.(*ssa.Alloc)
+			c.check(isA && a.Comment == "complit", trimPkgDirs(shortName(f))+"/frequency=", u.ipos(i), "set by the creating literal", "an existing bucket's frequency is changed in place: two buckets can end up with the same frequency or out of order, and Victim() (front bucket first) then evicts an entry that was used more often than another")
+		})
+	}
+	if n == 0 {
+		c.bad("lfu/frequency-writers", "", "no assignment of frequencyParent.frequency found")
+	}
+}
